@@ -38,7 +38,7 @@ mutual
     | o :: os => encodeTo o ++ encodeItems os
 end
 
-inductive Err | truncated | tooLong | negative | leadingZero | beyondData | indefinitePrimitive | invalid | fuel | tooDeep
+inductive Err | truncated | tooLong | negative | leadingZero | beyondData | indefinitePrimitive | invalid | fuel | tooDeep | beyondParent
 deriving Repr, DecidableEq
 
 /-- read the (possibly multi-byte) tag starting at `offset`: returns the offset after the tag -/
@@ -119,6 +119,7 @@ mutual
               match readItems fuel ber off' contentEnd indefinite depth with
               | .error e => .error e
               | .ok (os, off'') => .ok (o :: os, off'')
+          else if off' > contentEnd then .error .beyondParent   -- a member must end inside its definite-length parent
           else
             match readItems fuel ber off' contentEnd indefinite depth with
             | .error e => .error e
